@@ -1,6 +1,7 @@
 import Drivers.Common
 import RioModel.Model.Loop
 import RioModel.Model.LoopAnalysisTable
+import RioModel.Model.LoopAnalysisTable2
 open Lean Rio.Loop
 
 /-- a row `[url, method, kind, status, location|null, ext]` of the observed step table -/
@@ -49,11 +50,19 @@ def handle (j : Json) : Except String Json := do
     let method := (← Drv.optStr? p "method").getD "GET"      -- example.method.clone().unwrap_or("GET")
     let rows ← ((← (fromJson? tables[i]! : Except String (Array Json))).toList.mapM parseRow)
     out := out.push (← loopObs rows maxHops url method)
-  -- the analysis model of W4 (Model/LoopAnalysis.lean) on the per-example pipeline table the harness recorded ("an")
+  -- the analysis model of W4 (Model/LoopAnalysis.lean) on the per-example pipeline table the harness recorded ("an"), and,
+  -- W10, the same model incl. its walker, explain and impact on the extended table ("an2", Model/LoopAnalysisTable2.lean)
+  let mut fields : List (String × Json) := [("loops", Json.arr out)]
   match j.getObjVal? "an" with
-  | .ok .null | .error _ => return Json.mkObj [("m", Json.mkObj [("loops", Json.arr out)])]
+  | .ok .null | .error _ => pure ()
   | .ok an =>
     let a ← (Rio.Analysis.Table.handle an).mapError fun e => s!"analysis table: {e}"
-    return Json.mkObj [("m", Json.mkObj [("loops", Json.arr out), ("an", a)])]
+    fields := fields ++ [("an", a)]
+  match j.getObjVal? "an2" with
+  | .ok .null | .error _ => pure ()
+  | .ok an2 =>
+    let a ← (Rio.Analysis.Table2.handle an2).mapError fun e => s!"analysis table 2: {e}"
+    fields := fields ++ [("an2", a)]
+  return Json.mkObj [("m", Json.mkObj fields)]
 
 def main : IO Unit := Drv.run handle
